@@ -618,6 +618,74 @@ class TypeGen:
         self.model_specs[name] = spec
         return spec
 
+    def generic_model(self):
+        """A generic dataclass requested bare or parametrized.  The class is annotated with TypeVars only; the field specs (the
+        logical types sent to the model and used by every oracle) are what the documentation says the type variables stand
+        for, computed here and never read back from adaptix: the explicit argument, or - for the bare class - Any (no bound),
+        the bound (a bare generic bound with ITS implicit parameters: list -> list[Any]) or the union of the constraints."""
+        from typing import Dict, Generic, List, TypeVar
+        rng = self.rng
+        self.n_models += 1
+        name = f"GM{self.n_models}"
+        int_s, str_s, none_s = self.scalar("int"), self.scalar("str"), self.scalar("none")
+        bare = rng.random() < 0.6
+        tvs, args, fields_, specs = [], [], [], []
+
+        def any_dict():
+            a = self.any()
+            return Spec(hint=dict[Any, Any], ty=["dict", a.ty, a.ty], gen=lambda r: {k: a.gen(r) for k in r.sample(["k", "q", "z"], r.choice([0, 1, 2]))},
+                        kind="dict", children=[a, a], hashable=False, json_safe=False)
+        for i in range(rng.choice([1, 2, 2, 3])):
+            decl = rng.choice(["free", "bound-int", "bound-list", "bound-list", "bound-dict", "bound-list-int", "constraints"])
+            tv_name = f"T{self.n_models}_{i}"
+            if decl == "free":
+                tv, implicit = TypeVar(tv_name), self.any()
+                explicit = rng.choice([int_s, str_s, self.wrap("list", int_s)])
+            elif decl == "bound-int":
+                tv, implicit, explicit = TypeVar(tv_name, bound=int), int_s, int_s
+            elif decl == "bound-list":
+                tv, implicit = TypeVar(tv_name, bound=rng.choice([list, List])), self.wrap("list", self.any())
+                explicit = self.wrap("list", rng.choice([int_s, str_s]))
+            elif decl == "bound-dict":
+                tv, implicit = TypeVar(tv_name, bound=rng.choice([dict, Dict])), any_dict()
+                explicit = self.wrap("dict", int_s)
+            elif decl == "bound-list-int":
+                tv, implicit = TypeVar(tv_name, bound=rng.choice([list[int], List[int]])), self.wrap("list", int_s)
+                explicit = implicit
+            else:
+                tv, implicit = TypeVar(tv_name, int, str), self.union_from(Union[int, str], [int_s, str_s])
+                explicit = rng.choice([int_s, str_s])
+            arg = implicit if bare else explicit
+            shape = rng.choice(["T", "T", "T", "list", "dict", "opt"])
+            if shape == "opt" and arg.kind in ("any", "union"):
+                shape = "T"
+            if shape == "T":
+                hint, fs = tv, arg
+            elif shape == "list":
+                hint, fs = list[tv], self.wrap("list", arg)
+            elif shape == "dict":
+                hint, fs = dict[str, tv], self.wrap("dict", arg)
+            else:
+                hint, fs = Optional[tv], self.union_from(Optional[arg.hint], [arg, none_s])
+            tvs.append(tv)
+            args.append(arg)
+            fields_.append((f"g{i}", hint))
+            specs.append((f"g{i}", fs, True))
+            self.generic_decls = getattr(self, "generic_decls", collections.Counter())
+            self.generic_decls[("bare:" if bare else "parametrized:") + decl] += 1
+        cls = make_dataclass(name, fields_, bases=(Generic[tuple(tvs)],))
+        cls.__module__ = __name__
+        spec = Spec(hint=cls if bare else cls[tuple(a.hint for a in args)], ty=["model", name],
+                    gen=lambda r, cls=cls, specs=specs: cls(**{fn: fs.gen(r) for fn, fs, _ in specs}),
+                    kind="model", children=[fs for _, fs, _ in specs], hashable=False,
+                    json_safe=all(fs.json_safe for _, fs, _ in specs), overlapping=any(fs.overlapping for _, fs, _ in specs))
+        spec.fields = [{"name": fn, "ty": fs.ty, "required": True, "default": ["n"]} for fn, fs, _ in specs]
+        spec.field_specs = specs
+        spec.cls = cls
+        spec.generic = "bare" if bare else "parametrized"
+        self.model_specs[name] = spec
+        return spec
+
     def wrap(self, kind, child):
         """a container of the given kind around `child` (explicit, for targeted families)"""
         int_s, str_s = self.scalar("int"), self.scalar("str")
@@ -1416,11 +1484,16 @@ class Engine:
         self.hostile = hostile.corpus()
 
     # ---- generation ------------------------------------------------------------------
-    def gen_specs(self, n, depth, user_leaves=False, related=False, stateful=False, literal_unions=False, iter_matrix=False):
+    def gen_specs(self, n, depth, user_leaves=False, related=False, stateful=False, literal_unions=False, iter_matrix=False,
+                  generic_models=False):
         tg = TypeGen(self.ctx.rng, user_leaves=user_leaves, stateful=stateful)
         out = tg.iter_matrix() if iter_matrix else []
         for i in range(n):
-            if user_leaves and i % 9 == 4:
+            if generic_models and i % 7 == 2:
+                sp = tg.generic_model()
+                out.append(tg.wrap(self.ctx.rng.choice(["id", "id", "id", "list", "model"]), sp))
+                self.ctx.dist[f"generic-model:{sp.generic}"] += 1
+            elif user_leaves and i % 9 == 4:
                 out.append(tg.unexpected_union())
             elif literal_unions and i % 8 == 6:
                 sp = tg.literal_union()
